@@ -102,3 +102,17 @@ check('C17', 'E4', 'exploration',
       'defaults of omitted optionals other than namespace and parameters the '
       'target lacks are outside the claim (as the property says).',
       'DESIGN.md 6/C17')
+
+check('C16', 'E1', 'model_checking',
+      'explicit-state BFS over session histories on real engine.io sessions',
+      'All histories of connect / save_session / session() block with '
+      'mutation (plain, nested, nested with the inner block first) / '
+      'DISCONNECT / server.disconnect / loss + new transport / reconnect are '
+      'explored to closure for 2 transports x 2 namespaces on both servers; '
+      'at every state get_session() and session() of every live connection '
+      'are compared with a reference value whose contents are tagged with '
+      '(client slot, namespace, transport), so provenance of any foreign or '
+      'stale content is classified.',
+      'session writes capped per (transport, namespace); connection '
+      'generations capped at 2 in the canonical state.',
+      'DESIGN.md 6/C16')
